@@ -42,37 +42,9 @@ impl CommitmentInfo2 {
 //@end
 }
 
-// ------------------------------------------------------------------ spec side (from the property)
-pub open spec fn within_eps(pol: SimplePolicy, a: u64, b: u64) -> bool { abs_diff(a, b) <= pol.epsilon_sat }
-pub open spec fn c07_strict() -> bool {
-    vx_strict(T_policy_mutual_destination_allowlisted) && vx_strict(T_policy_mutual_no_pending_htlcs)
-    && vx_strict(T_policy_mutual_fee_range) && vx_strict(T_policy_mutual_value_matches_commitment)
-}
-pub open spec fn mutual_close_ok(pol: SimplePolicy, w: VxWallet, setup: ChannelSetup, es: EnforcementState,
-    to_holder: u64, to_cp: u64, holder_script: Option<ScriptBuf>, cp_script: Option<ScriptBuf>, path: DerivationPath) -> bool
-{
-    &&& es.current_holder_commit_info.is_some() && es.current_counterparty_commit_info.is_some()
-    &&& ({
-        let h = es.current_holder_commit_info->Some_0;
-        let c = es.current_counterparty_commit_info->Some_0;
-        let weight = spec_mutual_close_weight(closing_built_tx(closing_tx_spec(to_holder, to_cp, script_or_empty(holder_script),
-            script_or_empty(cp_script), setup.funding_outpoint)));
-        // no HTLC is pending in either current commitment
-        &&& h.offered_htlcs@.len() == 0 && h.received_htlcs@.len() == 0 && c.offered_htlcs@.len() == 0 && c.received_htlcs@.len() == 0
-        // the fee is within the policy range
-        &&& to_holder + to_cp <= setup.channel_value_sat
-        &&& feerate_in_range(pol, (setup.channel_value_sat - (to_holder + to_cp)) as nat, weight as nat)
-        // the side that does not pay the fee receives its balance from both latest commitments within epsilon
-        &&& (setup.is_outbound ==> within_eps(pol, to_cp, c.to_broadcaster_value_sat) && within_eps(pol, to_cp, h.to_countersigner_value_sat))
-        &&& (!setup.is_outbound ==> within_eps(pol, to_holder, h.to_broadcaster_value_sat) && within_eps(pol, to_holder, c.to_countersigner_value_sat))
-    })
-    // any holder output goes to a wallet-derivable or allowlisted script ...
-    &&& (to_holder > 0 ==> holder_script.is_some())
-    &&& (holder_script.is_some() ==> wallet_ok(w, holder_script->Some_0, path))
-    // ... which must be the upfront shutdown script if one was fixed
-    &&& (setup.holder_shutdown_script.is_some() && to_holder > 0 ==> holder_script == setup.holder_shutdown_script)
-    &&& (to_cp > 0 ==> cp_script.is_some())
-}
+//@include frag/close_spec.rs
+
+pub open spec fn sv_policy(v: SimpleValidator) -> SimplePolicy { v.policy }
 
 impl SimpleValidator {
 
@@ -88,12 +60,48 @@ impl SimpleValidator {
 //@end
 
 //@fn vls-core/src/policy/simple_validator.rs :: impl Validator for SimpleValidator :: validate_mutual_close_tx props=C07
-    ensures
-        r.is_ok() && c07_strict() ==> mutual_close_ok(self.policy, *wallet, *setup, *estate, to_holder_value_sat,
-            to_counterparty_value_sat, *holder_script, *counterparty_script, *holder_wallet_path_hint),   //[C07.validate.mutual-close-ok]
+//@include frag/c/sv_validate_mutual_close_tx.rs
+//@end
+
+//@fn vls-core/src/policy/simple_validator.rs :: impl Validator for SimpleValidator :: decode_and_validate_mutual_close_tx props=C07
+//@include frag/c/sv_decode_and_validate_mutual_close_tx.rs
+//@proof before /let closing_tx = ClosingTransaction::new\(/
+        proof {
+            let a = CloseArgs { to_holder: good_args.to_holder_value_sat, to_cp: good_args.to_counterparty_value_sat,
+                holder_script: good_args.holder_script, cp_script: good_args.counterparty_script, path: good_args.wallet_path };
+            assert(close_candidate(*tx, wallet_paths@, a));
+        }
+//@sub /(?s)let should_debug = true;\s*let mut debug_on_return = scopeguard::guard\(should_debug, \|should_debug\| \{.*?\n        \}\);/ => 
+//@sub /(?s)struct ValidateArgs \{.*?\n        \}/ => 
+//@sub /\*debug_on_return = false;/ => 
+//@sub /holder_value > cparty_value/ => vx_opt_gt(holder_value, cparty_value)
+//@sub /likely_rv\.unwrap_err\(\)/ => vx_unwrap_err(likely_rv)
+//@sub /good_args\.holder_script\.unwrap_or_else\(\|\| ScriptBuf::new\(\)\)/ => vx_script_or_empty(good_args.holder_script)
+//@sub /good_args\.counterparty_script\.unwrap_or_else\(\|\| ScriptBuf::new\(\)\)/ => vx_script_or_empty(good_args.counterparty_script)
 //@end
 
 } // impl
+
+// the struct local to decode_and_validate_mutual_close_tx (items inside bodies are not supported: hoisted by hand, R5)
+pub struct ValidateArgs {
+    pub to_holder_value_sat: u64,
+    pub to_counterparty_value_sat: u64,
+    pub holder_script: Option<ScriptBuf>,
+    pub counterparty_script: Option<ScriptBuf>,
+    pub wallet_path: DerivationPath,
+}
+// only decides which assignment is tried first
+#[verifier::external_body]
+pub fn vx_opt_gt(a: Option<u64>, b: Option<u64>) -> bool { a > b }
+#[verifier::external_body]
+pub fn vx_unwrap_err(r: Result<(), ValidationError>) -> ValidationError { r.unwrap_err() }
+
+impl EnforcementState {
+//@fn vls-core/src/policy/validator.rs :: impl EnforcementState :: minimum_to_holder_value mode=trusted
+//@end
+//@fn vls-core/src/policy/validator.rs :: impl EnforcementState :: minimum_to_counterparty_value mode=trusted
+//@end
+}
 
 } // verus!
 fn main() {}
